@@ -38,9 +38,15 @@ def main():
     rc, o = sh("/venv/bin/python -m pytest -q -p no:cacheprovider --no-cov 2>&1 | tail -3", cwd=wt, env=env)
     meta["suite_with_change"] = o.strip().splitlines()[-1] if o.strip() else ""
     rc1, o1 = sh("/venv/bin/python demo.py", cwd=wt, env=env)
-    sh("git -C %s stash -- src" % wt)
-    rc0, o0 = sh("/venv/bin/python demo.py", cwd=wt, env=env)
-    sh("git -C %s stash pop" % wt)
+    # (not git stash: the stash ref is shared by all worktrees of a repository)
+    pf = os.path.join(out, "patch.diff")
+    rcr, orr = sh("git -C %s apply -R %s" % (wt, pf))
+    assert rcr == 0, orr
+    try:
+        rc0, o0 = sh("/venv/bin/python demo.py", cwd=wt, env=env)
+    finally:
+        rca, oa = sh("git -C %s apply %s" % (wt, pf))
+        assert rca == 0, oa
     meta["demo_with_change"] = {"exit": rc1, "tail": o1.strip()[-300:]}
     meta["demo_without_change"] = {"exit": rc0, "tail": o0.strip()[-300:]}
     meta["confirmed"] = ("229 passed" in meta["suite_with_change"] and "1 failed" in meta["suite_with_change"]
